@@ -61,15 +61,21 @@ func (fan *FileFan) GetRpm() (result int, err error) {
 		return 0, err
 	}
 	result = integer
+	valueMu.Lock()
 	fan.Rpm = result
+	valueMu.Unlock()
 	return result, err
 }
 
 func (fan *FileFan) GetRpmAvg() float64 {
+	valueMu.Lock()
+	defer valueMu.Unlock()
 	return float64(fan.Rpm)
 }
 
 func (fan *FileFan) SetRpmAvg(rpm float64) {
+	valueMu.Lock()
+	defer valueMu.Unlock()
 	fan.Rpm = int(rpm)
 }
 
@@ -90,7 +96,9 @@ func (fan *FileFan) GetPwm() (result int, err error) {
 		return MinPwmValue, err
 	}
 	result = integer
+	valueMu.Lock()
 	fan.Pwm = result
+	valueMu.Unlock()
 	return result, err
 }
 
